@@ -233,10 +233,33 @@ def ref_contexts(case):
                 for ns, vals in f2.items():
                     f.setdefault(ns, {}).update(vals)
             return g, f
-        if 'uses' in d:
-            raise Unsure('context with uses')
-        f = {ns: dict(v) for ns, v in d.get('for_namespaces', {}).items()}
-        return {k: v for k, v in d.items()}, f
+        return load(d, None)
+
+    def load(d, ns):
+        # a context document loaded under namespace ns: its plain entries address ns (all configs when ns is None), its
+        # for_namespaces entries the namespaces below ns; the contexts it uses follow it (and override it), a use
+        # without `as` under the same namespace, `x as sub` under ns::sub
+        plain = {k: v for k, v in d.items() if k not in ('for_namespaces', 'uses')}
+        fn = {(f'{ns}::{k}' if ns else k): dict(v) for k, v in d.get('for_namespaces', {}).items()}
+        if ns:
+            g, f = {}, dict(fn)
+            f[ns] = dict(plain)
+        else:
+            g, f = plain, fn
+        uses = d.get('uses', [])
+        for use in ([uses] if isinstance(uses, str) else uses):
+            if '{' in use:
+                raise Unsure('placeholder in a context uses path')
+            if ' as ' in use:
+                path, sub = use.split(' as ')
+                sub_ns = f'{ns}::{sub}' if ns else sub
+            else:
+                path, sub_ns = use, ns
+            g2, f2 = load(case['files'][path], sub_ns)
+            g.update(g2)
+            for k, vals in f2.items():
+                f.setdefault(k, {}).update(vals)
+        return g, f
     return one(ctx)
 
 
